@@ -223,6 +223,7 @@ def run(ctx):
     hf = pm.defs.get('make_conf_hookable')
     ctx.require(hf is not None, 'anchor vanished: make_conf_hookable')
     _hookable(ctx, pm, hf)
+    _dispatch_and_publication(ctx)
     tmod = repo.mod('beartype._decor._type.decortype')
     bt = tmod.defs.get('beartype_type')
     ctx.require(bt is not None, 'anchor vanished: beartype_type')
@@ -465,6 +466,103 @@ def _hookable(ctx, pm, hf):
         F.patch_global('beartype._conf.confmain', 'BeartypeConf', old)
         F.stubs.clear()
         F.stubs.update(saved)
+
+
+def _dispatch_and_publication(ctx):
+    """R6 (route selection of beartype_object) and R8 (the configuration a module is transformed
+    with is the configuration its injected code finds at run time)."""
+    from sa.gen import AConf
+    from . import _gen
+    repo = ctx.repo
+    F = _gen.engines(ctx)[0].f
+    cm = repo.mod('beartype._decor.decorcore')
+    fn = F.const('beartype._decor.decorcore', 'beartype_object')
+    ctx.require(isinstance(fn, FuncVal), 'anchor vanished: beartype_object')
+    saved = dict(F.stubs)
+    route = []
+    F.stubs['beartype._decor.decorcore._beartype_object_fatal'] = lambda e, a, k: route.append('fatal') or 'result'
+    F.stubs['beartype._decor.decorcore._beartype_object_nonfatal'] = lambda e, a, k: route.append('nonfatal') or 'result'
+    try:
+        for wcls in (None, 'W'):
+            for stack in ('absent', 'None', 'non-empty'):
+                kw = {} if stack == 'absent' else {'cls_stack': None if stack == 'None' else ('C',)}
+                del route[:]
+                try:
+                    _call_function(F, fn, ['obj'], dict(conf=AConf(warning_cls_on_decorator_exception=wcls), **kw), 1)
+                except (_Abort, _Raise) as ex:
+                    ctx.require(False, f'cannot interpret beartype_object: {ex}')
+                want = ['fatal'] if wcls is None else ['nonfatal']
+                ctx.ob('C05.R6', f'beartype_object:route:warning-class-set={wcls is not None}:cls_stack={stack}', cm.where(fn.node),
+                       'a decoration failure is reported as a warning exactly when the configuration names a warning '
+                       'class — for module-level objects and for members of a class being decorated alike', route == want,
+                       f'route taken: {route}; with the hook\'s configuration a failing method aborts the decoration of '
+                       f'the remaining members of its class' if wcls is not None else f'route taken: {route}')
+    finally:
+        F.stubs.clear()
+        F.stubs.update(saved)
+
+    ctx.rule('C05.R8', 'one configuration per transformed module: BeartypeSourceFileLoader.get_code obtains conf from '
+             'get_package_conf_or_none(fullname) and, before delegating to the standard loader, unconditionally '
+             'assigns that same object to self._module_conf (what source_to_code hands to the transformer) and to '
+             'claw_state.module_name_to_beartype_conf[fullname] (what the injected code looks up at run time under '
+             'self._module_name = fullname); source_to_code passes exactly those two attributes to the transformer')
+    lm = repo.mod('beartype.claw._importlib._clawimpfileloader')
+    gc = repo.find_def(lm.name, 'BeartypeSourceFileLoader.get_code')
+    p0 = gc.args.args[1].arg
+    confs = [a for a in walk_shallow(gc) if isinstance(a, ast.Assign) and isinstance(a.value, ast.Call)
+             and dotted(a.value.func) == 'get_package_conf_or_none' and a.value.args and dotted(a.value.args[0]) == p0]
+    ctx.require(len(confs) == 1, 'get_code: expected one lookup get_package_conf_or_none(fullname)')
+    cv = dotted(confs[0].targets[0])
+
+    def gen(node):
+        out = []
+        if isinstance(node, ast.Assign) and len(node.targets) == 1 and dotted(node.value) == cv:
+            t = node.targets[0]
+            if dotted(t) == 'self._module_conf':
+                out.append('self-conf')
+            if isinstance(t, ast.Subscript) and norm(t.value).endswith('module_name_to_beartype_conf') and dotted(t.slice) == p0:
+                out.append('table')
+        if isinstance(node, ast.Assign) and len(node.targets) == 1 and dotted(node.targets[0]) == 'self._module_name' \
+                and dotted(node.value) == p0:
+            out.append('self-name')
+        return out
+    sites = []
+
+    def on_stmt(node, st):
+        if isinstance(node, (ast.Return, ast.Expr, ast.Assign)) and any(
+                isinstance(c, ast.Call) and norm(c.func) == 'super().get_code' for c in ast.walk(node)):
+            sites.append((node, st))
+    Flow(gen, mode='must', on_stmt=on_stmt).run(gc)
+    hooked = [(n_, st) for n_, st in sites if not any(
+        isinstance(i, ast.If) and n_ in i.body and ('is None' in norm(i.test) or '.match(' in norm(i.test)) for i in walk_shallow(gc))]
+    ctx.require(hooked, 'get_code: no delegation to the standard loader on the hooked path')
+    for n_, st in hooked:
+        for ev, what in (('self-conf', 'self._module_conf = conf'), ('table', f'module_name_to_beartype_conf[{p0}] = conf'),
+                         ('self-name', f'self._module_name = {p0}')):
+            ctx.ob('C05.R8', f'get_code:publishes:{ev}', lm.where(n_),
+                   f'`{what}` is executed unconditionally (plain assignment of the looked-up configuration) before the '
+                   f'module is compiled', ev in st,
+                   'on some path the module is compiled without this assignment (e.g. a conditional store or '
+                   'setdefault keeps an earlier configuration: the code is transformed for one configuration and runs '
+                   'with another)')
+    others = [c for c in ast.walk(gc) if isinstance(c, ast.Call) and isinstance(c.func, ast.Attribute)
+              and norm(c.func.value).endswith('module_name_to_beartype_conf') and c.func.attr in ('setdefault', 'update', 'pop', 'get')]
+    ctx.ob('C05.R8', 'get_code:no-conditional-publication', lm.where(others[0] if others else gc),
+           'the run-time table is written by plain assignment only', not others, f'{[norm(c)[:80] for c in others]}')
+    sc = repo.find_def(lm.name, 'BeartypeSourceFileLoader.source_to_code')
+    tc = [c for c in walk_shallow(sc) if isinstance(c, ast.Call) and dotted(c.func) == 'BeartypeNodeTransformer']
+    kw = {k.arg: norm(k.value) for c in tc for k in c.keywords}
+    ctx.ob('C05.R8', 'source_to_code:transformer-gets-published-conf', lm.where(sc),
+           'the transformer is built from self._module_name and self._module_conf', len(tc) == 1 and
+           kw == {'module_name': 'self._module_name', 'conf': 'self._module_conf'}, f'{kw}')
+    um = repo.mod('beartype.claw._ast._clawastutil')
+    kc = repo.find_def(um.name, 'BeartypeNodeTransformerUtilityMixin._make_node_keyword_conf')
+    txt = [norm(k.value) for c in walk_shallow(kc) if isinstance(c, ast.Call) and dotted(c.func) == 'make_node_str' for k in c.keywords if k.arg == 'text']
+    attr = [norm(k.value) for c in walk_shallow(kc) if isinstance(c, ast.Call) and dotted(c.func) == 'make_node_object_attr_load'
+            for k in c.keywords if k.arg == 'attr_name']
+    ctx.ob('C05.R8', 'injected-lookup:same-table-same-key', um.where(kc),
+           'injected code reads module_name_to_beartype_conf[<module name>]', txt == ['self._module_name'] and
+           attr == ["'module_name_to_beartype_conf'"], f'key {txt}, table {attr}')
 
 
 def _annassign(ctx):
